@@ -140,15 +140,18 @@ def sampleCounts (nHap : Nat) (s : Sample) : Except Err (Option (List Rat)) :=
   | none => .ok none
   | some c => if c.length > nHap then .error .indexError else .ok (some c)
 
+/-- number of allele slots `get_sample_snv_ACP` allocates: four, or more when a site has more than four
+    symbols (before the F25 repair it was always four and a fifth symbol was an `IndexError`) -/
+def acpWidth (siteIdx : List Nat) : Nat := max 4 (siteIdx.foldr max 0 + 1)
+
 /-- `get_sample_snv_ACP` for one sample and site: marginalise, normalise to the ploidy (`nan` = `none` when the
-    sample has no counts or they sum to zero); 4 allele slots per site -/
+    sample has no counts or they sum to zero) -/
 def sampleSiteACP (siteIdx : List Nat) (ploidy : Nat) (counts : Option (List Rat)) :
     Except Err (Option (List Rat)) :=
   match counts with
   | none => .ok none
   | some c =>
-    if (siteIdx.take c.length).any (fun a => decide (4 ≤ a)) then .error .indexError else
-    let m : List Rat := (List.range 4).map (fun a => marginal siteIdx c a)
+    let m : List Rat := (List.range (acpWidth siteIdx)).map (fun a => marginal siteIdx c a)
     let denom := m.foldr (· + ·) 0
     if denom = 0 then .ok none else .ok (some (m.map (fun x => x / denom * (ploidy : Rat))))
 
